@@ -54,7 +54,7 @@ SHARD_TIMEOUT = {"quick": 1500, "thorough": 4 * 3600}
 SLICES = {"riscv": 2, "riscv:rvc": 3, "arm": 2, "arm:thumb": 2, "x86_64": 6, "mips": 1, "msp430": 2, "avr": 2,
           "m68k": 2}
 PER_CLASS = {"quick": 60, "thorough": 1500}
-DATA_MNEMONICS = {"db", "dw", "dd", "dq", "dcd", ".byte", ".zero", "dcd2", "ds"}
+DATA_MNEMONICS = {"db", "dw", "dd", "dq", "dcd", "dcd=", ".byte", ".zero", "ds"}
 MAX_UNPARSED_SHARE = 0.05
 
 
@@ -77,8 +77,92 @@ def floors(tier):
 # ---------------------------------------------------------------------------
 # avoid switches (structural: isa, class, assignment with integers zeroed, built object)
 
+# AVOID[key](isa, ci, a0, obj0) -> True (do not generate) | list (adjusted assignment) | False
+# AVOID_INT[key](isa, ci, path, value) -> True: do not draw this value for this integer operand
 AVOID = {}
+AVOID_INT = {}
 PROBES = {}
+
+
+def _map_regs(cls, assignment, fn):
+    """Copy of an assignment with every register name passed through fn (recursively)."""
+    from vlib import isaenum
+
+    out = []
+    for op, a in zip(cls.syntax.formal_arguments, assignment):
+        k = isaenum.operand_kind(op)
+        if k == "reg":
+            out.append({"r": fn(a["r"])})
+        elif k == "alt":
+            out.append({"alt": a["alt"], "args": _map_regs(op._cls[a["alt"]], a["args"], fn)})
+        else:
+            out.append(a)
+    return out
+
+
+# ---- riscv / rvc ------------------------------------------------------------
+
+RVC_CREG = {"c.sub", "c.xor", "c.or", "c.and", "c.srli", "c.srai", "c.andi", "c.beqz", "c.bneqz", "c.lw", "c.sw",
+            "c.addi4spn"}
+RVC_TWO_ADDRESS = {"c.slli", "c.srli", "c.srai", "c.andi"}
+
+
+def av_riscv_ble(isa, ci, a0, obj0):
+    return isa.startswith("riscv") and ci.mnemonic == "bge"
+
+
+def av_rvc_creg(isa, ci, a0, obj0):
+    if isa == "riscv:rvc" and ci.mnemonic in RVC_CREG:
+        def up(name):
+            n = int(name[1:])
+            return "x%d" % (n + 8) if n < 8 else name
+        new = _map_regs(ci.cls, a0, up)
+        return new if new != a0 else False
+    return False
+
+
+def av_rvc_two_address(isa, ci, a0, obj0):
+    if isa == "riscv:rvc" and ci.mnemonic in RVC_TWO_ADDRESS:
+        new = list(a0)
+        new[1] = dict(new[0])      # printed source := destination
+        return new if new != a0 else False
+    return False
+
+
+def av_rvc_reserved(isa, ci, a0, obj0):
+    if isa != "riscv:rvc":
+        return False
+    regs = reg_names(obj0)
+    m = ci.mnemonic
+    if m in ("c.addi", "c.lwsp", "c.li", "c.lui", "c.mv", "c.jr", "c.jalr", "c.slli") and regs and regs[0] == "x0":
+        return True     # rd/rs1 = x0 selects c.nop / a reserved encoding / a hint
+    if m == "c.mv" and len(regs) > 1 and regs[1] == "x0":
+        return True     # c.mv rd, x0 is the encoding of c.jr rd
+    if m == "c.lui" and regs and regs[0] == "x2":
+        return True     # c.lui x2 is the encoding of c.addi16sp
+    return False
+
+
+def avi_rvc_reserved(isa, ci, path, v):
+    # zero immediates are reserved encodings / 64-bit shift hints
+    return isa == "riscv:rvc" and v == 0 and ci.mnemonic in ("c.slli", "c.srli", "c.srai", "c.addi4spn",
+                                                              "c.addi16sp", "c.lui", "c.addi")
+
+
+def av_rvc_cbnez(isa, ci, a0, obj0):
+    return isa == "riscv:rvc" and ci.mnemonic == "c.bneqz"
+
+
+AVOID.update({
+    "riscv-ble-prints-bge": av_riscv_ble,
+    "rvc-compressed-register-wraps": av_rvc_creg,
+    "rvc-two-address-source-not-encoded": av_rvc_two_address,
+    "rvc-reserved-encodings-accepted": av_rvc_reserved,
+    "rvc-cbnez-spelt-cbneqz": av_rvc_cbnez,
+})
+AVOID_INT.update({
+    "rvc-reserved-encodings-accepted": avi_rvc_reserved,
+})
 
 
 def alt_names(obj, out=None):
@@ -122,6 +206,7 @@ def run_shard(spec):
     r = rng(spec["seed"], PROPERTY, "%s/%s/%s" % (isa, spec["slice"], spec["of"]))
     en = isaenum.Enumerator(isa, r)
     avoid = [k for k in spec["avoid"] if k in AVOID]
+    avoid_int = [k for k in spec["avoid"] if k in AVOID_INT]
     classes = [ci for ci in isaenum.classes(isa) if ci.mnemonic not in DATA_MNEMONICS
                and not ci.cls.__module__.endswith("data_instructions")]
     classes = [ci for i, ci in enumerate(classes) if i % spec["of"] == spec["slice"]]
@@ -182,11 +267,17 @@ def run_shard(spec):
             k = (ci.key,) + p
             if k not in slots:
                 slots[k] = oprange.Slot(ci, p, a0)
+            elif len(slots[k].candidates) < 6:
+                slots[k].candidates.append(a0)
     prober = oprange.Prober(isa)
     prober.probe(list(slots.values()))
     slot_stat = {}
+    problem_slots = []
     for k, s in slots.items():
         slot_stat[s.status] = slot_stat.get(s.status, 0) + 1
+        if s.status != "ok":
+            problem_slots.append("%s %s %s: %s (%s) template %s" % (isa, s.ci.key, list(s.path), s.status, s.detail,
+                                                                    s.template))
         fact = slot_facts.get(k)
         if s.status == "no-identity":
             violations.append({
@@ -219,13 +310,18 @@ def run_shard(spec):
                 if s.status != "ok":
                     v = s.neutral
                 else:
-                    if r.random() < 0.35 and s.hi > s.lo:
-                        v = r.randrange(s.lo // s.step, s.hi // s.step + 1) * s.step
+                    for _try in range(8):
+                        if r.random() < 0.35 and s.hi > s.lo:
+                            v = r.randrange(s.lo // s.step, s.hi // s.step + 1) * s.step
+                        else:
+                            c = cyc.get(s.key())
+                            if c is None:
+                                c = cyc[s.key()] = isaenum.Cycler(s.boundary() or [s.neutral], r)
+                            v = c.next()
+                        if not any(AVOID_INT[k](isa, ci, p, v) for k in avoid_int):
+                            break
                     else:
-                        c = cyc.get(s.key())
-                        if c is None:
-                            c = cyc[s.key()] = isaenum.Cycler(s.boundary() or [s.neutral], r)
-                        v = c.next()
+                        v = s.neutral
                 oprange.set_at(a, p, v)
         inst = isaenum.Instance(ci, a, [])
         if inst.error:
@@ -301,7 +397,7 @@ def run_shard(spec):
             isa, spec["slice"], per["unparsed"], total))
     observed = {"per_isa": {isa: per}, "isas": {isa: 1}, "slots": slot_stat,
                 "virtual_listed_not_judged": {isa: virtual}, "avoided_by_open_finding": avoided, "adjusted_by_open_finding": adjusted,
-                "probe_instances": prober.probe_instances, "decoder_runs": prober.decoder_runs}
+                "problem_slots": problem_slots[:40], "probe_instances": prober.probe_instances, "decoder_runs": prober.decoder_runs}
     return {"evaluations": evals, "nontrivial_hashes": sorted(hashes), "observed": observed, "discarded": discarded,
             "samples": samples, "violations": violations, "inconclusive": inconclusive}
 
